@@ -194,7 +194,9 @@ impl<'a, TId: ArenaId, TValue> Iterator for MappingIter<'a, TId, TValue> {
 
     fn next(&mut self) -> Option<Self::Item> {
         loop {
-            if self.offset >= self.mapping.len {
+            // The ids that are in use are not necessarily contiguous, so every slot up
+            // to and including the highest id ever inserted has to be visited.
+            if self.mapping.len == 0 || self.offset > self.mapping.max {
                 return None;
             }
 
